@@ -141,6 +141,8 @@ def structures(tier):
          ('nestedmu-3-alone', Structure('nested', A3, nests=[(1, 7)], mu=True)),
          ('cnl-3-fixed', Structure('cnl', A3, nests=[(1, 3), (3, 7)], alphas=[{1: 1.0, 3: 0.5}, {3: 0.5, 7: 1.0}])),
          ('cnlmu-3-fixed', Structure('cnl', A3, nests=[(1, 3), (3, 7)], alphas=[{1: 1.0, 3: 0.5}, {3: 0.5, 7: 1.0}], mu=True)),
+         ('cnl-3-alone', Structure('cnl', A3, nests=[(1, 3)], alphas=[{1: 1.0, 3: 1.0}])),
+         ('cnlmu-3-alone', Structure('cnl', A3, nests=[(3, 7)], alphas=[{3: 1.0, 7: 1.0}], mu=True)),
          ('ordered_logit-4', Structure('ordered_logit', (1, 2, 3, 4))),
          ('ordered_probit-4', Structure('ordered_probit', (1, 2, 3, 4))),
          ('ordered_logit-2', Structure('ordered_logit', (0, 1))),
